@@ -5,7 +5,7 @@ Require Import ExtrOcamlBasic.
 From NV Require Import Base.Result Model.Retry Skel.ExnSyntax Skel.ExnCheck Gen.TagSkel Bridge.C16Skel.
 Cd "../extract/ml".
 Extraction "c16.ml"
-  Model.Retry.run_transceive Model.Retry.deliveries Model.Retry.script_of Model.Retry.run_seq
+  Model.Retry.run_transceive Model.Retry.run_t4_is_present Model.Retry.deliveries Model.Retry.script_of Model.Retry.run_seq
   Skel.ExnCheck.escapes Skel.ExnCheck.solution Skel.ExnCheck.summary_okb Skel.ExnCheck.slookup
   Gen.TagSkel.tag_programs Gen.TagSkel.prog_activate Gen.TagSkel.entry_activate Gen.TagSkel.class_names
   Gen.TagSkel.exch_named Gen.TagSkel.exch_any Bridge.C16Skel.allowed.
